@@ -40,8 +40,8 @@ CLAIM = {
              "layers is ordered by (-combined, id); hybrid rerank, fusion, MMR and apply_quality as a whole are permutations for every "
              "configuration and every injected layer failure (hybrid keeps position 0 and the tail beyond k_max); used = take(max 0 t2_k); "
              "residual ids are nodes of active graphs whose lower-cased label occurs in a used hit, strictly sorted, at most max(cap,0); "
-             "completeness (distinct ids): fewer than k hits => every qualifying episode is returned, each tier returns the best-k prefix under "
-             "(-cosine, id), fewer than cap nudges => every matching label is represented; every Lean monitor is proved true of the model output. "
+             "completeness (episode ids may repeat: _rank_by_cosine keeps one entry per id before the k cut, C11_tier_ids_nodup): fewer than k hits => every "
+             "qualifying episode's id is returned, each tier returns the best-k distinct ids under (-cosine, id), fewer than cap nudges => every matching label is represented; every Lean monitor is proved true of the model output. "
              "Tied to the code by exact differential execution (floats as bits) and by the Lean monitors evaluated on the real T2Result."),
     "note": ("Theorems are over any carrier whose Boolean comparisons form a linear order (arithmetic uninterpreted), executed at Float; "
              "NaN scores are outside the theorems. owner_scope=agent with ctx.agent_id = None applies NO owner filter (C11_scope_agent_none_unrestricted, "
@@ -856,6 +856,9 @@ def apply_edit(case: dict, ed: list) -> dict:
         c["lex"][ed[1]["id"]] = f2b(0.0)
     elif op == "t2k":
         c["t2k"] = ed[1]
+    elif op == "who":
+        # the next call is made for another agent / owner scope on the SAME index and store
+        c["scope"], c["agent"] = ed[1], ed[2]
     return c
 
 
@@ -907,6 +910,14 @@ class T2HistComp(Component):
         for nid in ["n:1", "n:2", "n:3"]:
             if nid not in have:
                 base["graphs"][0][1].append([nid, rng.choice(words + ["Apple", "qqq"])])
+        if rng.random() < 0.4:
+            # owners sharing cluster ids, cluster tier first, few clusters chosen
+            for e in base["eps"]:
+                e["owner"] = rng.choice(["A", "B"])
+                e["aux"] = dict(e.get("aux") or {}, cluster_id=rng.choice(["c1", "c2"]))
+            base["tiers"] = rng.choice([["cluster_semantic"], ["cluster_semantic", "exact_semantic"]])
+            base["topM"] = 1
+            base["scope"], base["agent"] = "agent", rng.choice(["A", "B"])
         steps = []
         nids = [n[0] for n in base["graphs"][0][1]]
         for _ in range(rng.choice([1, 1, 2, 3])):
@@ -936,6 +947,8 @@ class T2HistComp(Component):
                     eds.append(["add_ep", e])
                 else:
                     eds.append(["t2k", rng.choice([None, 0, 1, 2, 100])])
+            if rng.random() < 0.35:
+                eds.append(["who", rng.choice(["agent", "agent", "any", "world"]), rng.choice(["A", "B", "C", "world"])])
             steps.append(eds)
         return {"base": base, "steps": steps}
 
